@@ -25,6 +25,8 @@ inductive Instr
   | CMPQ (a b : Reg)
   | MOVQrr (src dst : Reg)
   | JB (l : String)
+  | JBE (l : String)
+  | ANDQi (imm : Nat) (dst : Reg)
   | MOVOU (disp : Int) (base : Reg) (idx : Option Reg) (dst : XReg)
   | POR (src dst : XReg)
   | PAND (src dst : XReg)
@@ -96,6 +98,8 @@ def step (s : St) : Instr → Option (St × Option String)
   | .CMPQ a b => some ({ s with zf := s.r a == s.r b, cf := decide (s.r a < s.r b) }, none)
   | .MOVQrr src dst => some (setR s dst (s.r src), none)
   | .JB l => some (s, if s.cf then some l else none)
+  | .JBE l => some (s, if s.cf || s.zf then some l else none)
+  | .ANDQi imm dst => let v := s.r dst &&& imm; some ({ setR s dst v with zf := v == 0, cf := false }, none)
   | .MOVOU d b i dst =>
     let a := addr s d b i
     some ({ setX s dst (fun j => s.mem (a + j)) with loads := s.loads ++ [(a, 16)] }, none)
